@@ -143,14 +143,16 @@ def check_fai_text(ctx, count):
         for i in range(count):
             rows = []
             for k in range(rng.randint(1, 4)):
-                rows.append([rng.choice(["chr", "s", "HAP1_SCAFFOLD_"]) + str(k + 1), rng.randint(0, 10**12), rng.randint(0, 10**12), rng.randint(0, 80), rng.randint(0, 82)])
-            text = "".join(FastaInfo(*r[1:]).fai_row(r[0]) for r in rows)
-            lines = text.splitlines(keepends=True)
+                # names as index_fasta_file can produce them: any bytes but ASCII white space, decoded as UTF-8 — including characters
+                # that are white space / line boundaries for `str` methods but not for `bytes.split()`
+                odd = rng.choice(["", "", "", "\x1c", "\x1f", "\xa0", "\x85", "\u2028", "\u3000", "é", "#", "|"])
+                rows.append([rng.choice(["chr", "s", "HAP1_SCAFFOLD_"]) + odd + str(k + 1), rng.randint(0, 10**12), rng.randint(0, 10**12), rng.randint(0, 80), rng.randint(0, 82)])
+            lines = [FastaInfo(*r[1:]).fai_row(r[0]) for r in rows]
             mal = rng.random() < 0.35
             if mal and lines:
                 j = rng.randrange(len(lines))
                 f = lines[j].rstrip("\n").split("\t")
-                k = rng.choice(["del", "add", "nonint", "space", "dup", "blank"])
+                k = rng.choice(["del", "add", "nonint", "space", "dup", "blank", "crlf", "tabend"])
                 if k == "del":
                     del f[rng.randrange(len(f))]
                 elif k == "add":
@@ -162,10 +164,14 @@ def check_fai_text(ctx, count):
                 elif k == "dup" and len(lines) > 1:
                     f[0] = rows[0][0]
                 lines[j] = ("\t".join(f) + "\n") if k != "blank" else "\n"
+                if k == "crlf":
+                    lines[j] = "\t".join(f) + "\r\n"
+                elif k == "tabend":
+                    lines[j] = "\t".join(f) + "\t\n"
             p = sc.path / f"t{i}.fa"
             p.write_bytes(b">x\nA\n")
             fai = FastaIndex(p)
-            fai.fai_file.write_text("".join(lines))
+            fai.fai_file.write_text("".join(lines), encoding="utf-8", newline="")
             try:
                 fai.load_index()
                 real_load = {"ok": [[n, x.length, x.file_offset, x.residues_per_line, x.max_line_length] for n, x in fai.index.items()]}
